@@ -92,6 +92,7 @@ def strategy(tier):
         "other_model": st.sampled_from([None, None, "ended", "init"]),
         "container_model": st.sampled_from([False, False, True]),
         "one_shot_listeners": st.sampled_from([False, False, True]),
+        "same_rep_object": st.booleans(),
     })
 
 
@@ -281,7 +282,7 @@ def run_case(case):
             published["n"] = 0
             del published["bad"][:]
             try:
-                h.initialize()
+                h.initialize(same_object=bool(case.get("same_rep_object")))
             except Exception as e:
                 out.fail("reinitialize-raised-" + type(e).__name__, repr(e))
                 return out
